@@ -49,6 +49,7 @@ class Sim:
         self._main.acquire()
         self.switches = 0
         self.harness_exc = None
+        self.weighted = False  # set by the harness (swarm parameter)
         CURRENT[0] = self
 
     # ------------------------------------------------------------ history
@@ -77,6 +78,8 @@ class Sim:
         return t.name if t is not None else "sim"
 
     def spawn(self, thread):
+        thread.weight = self.ch.pick([1, 1, 4, 16], "prio") \
+            if self.weighted else 1
         thread.state = READY
         thread.ready_since = self.now
         self.threads.append(thread)
@@ -192,7 +195,15 @@ class Sim:
                 self.verdict = "quiescent"
                 return None
             nopt = len(runnable) + (1 if ev_ok else 0)
-            k = self.ch.draw(nopt, "sched") if nopt > 1 else 0
+            if nopt <= 1:
+                k = 0
+            elif self.weighted:
+                # priority based schedules: some threads are starved for long
+                # stretches, which uniform choice practically never does
+                ws = [t.weight for t in runnable] + ([4] if ev_ok else [])
+                k = self.ch.weighted(ws, "sched")
+            else:
+                k = self.ch.draw(nopt, "sched")
             self.steps += 1
             if k < len(runnable):
                 t = runnable[k]
